@@ -26,7 +26,7 @@ BUDGET_QUICK = 90
 LEVEL_TEXT = ("Kernel-checked: assigning every factor position to exactly one clique makes the product of clique potentials equal the product "
               "of all factors at every assignment (even with equal factors); the moral graph makes every CPD family a clique; BN->MN keeps the "
               "factor list, hence the joint and Z; for EVERY graph and EVERY elimination order, the fill-in graph of the model of triangulate has "
-              "that order as a perfect elimination ordering (later neighbours of each vertex are pairwise adjacent). The implementation's conversions (BN->MN, MN<->FG, MN/FG/BN->junction tree, triangulate "
+              "that order as a perfect elimination ordering (later neighbours of each vertex are pairwise adjacent), hence that graph is chordal: every cycle of length >= 4 has a chord. The implementation's conversions (BN->MN, MN<->FG, MN/FG/BN->junction tree, triangulate "
               "with H1-H6 and explicit orders) are compared at every named assignment with the brute-force joint of the model, partition "
               "functions are compared exactly, targets are validated with their own check_model and with the model's chordal / tree / "
               "running-intersection / cover predicates under 6 hash seeds.")
